@@ -293,7 +293,7 @@ def chart_specs(draw, max_segments: int = 8, max_tracks: int = 2, max_notes: int
                 max_events: int = 5, max_ts: int = 3, max_anchors: int = 2, tempo_values=bpm_values,
                 headers=None, min_tracks: int = 0, min_notes: int = 0, limit_s: int = TIME_LIMIT_S,
                 max_tick_cap: int | None = None, anchor_max: int = 10 ** 11, res=None,
-                with_song: bool = True):
+                with_song: bool = True, with_layout: bool = True):
     """A well-formed chart spec plus the generation-side facts a check may want:
     returns {"spec": spec, "res": r, "tempo": [...], "max_tick": M, "tracks_model": {...}}."""
     tmap = draw(tempo_maps(max_segments=max_segments, values=tempo_values,
@@ -338,8 +338,20 @@ def chart_specs(draw, max_segments: int = 8, max_tracks: int = 2, max_notes: int
         song = [[name, draw(val) if not isinstance(val, str) else val] for name, val in picks]
         song.insert(draw(st.integers(0, len(song))), ["Resolution", str(tmap["res"])])
         spec["song"] = song
-    # line formatting (blank / tab padding around body lines) is another dimension that "cannot matter"
+    # line formatting (blank / tab padding around body lines, zero-prefixed ticks) is another dimension
+    # that "cannot matter"; so are CRLF line ends, the order of the sections and unknown sections
     if draw(st.integers(0, 2)) == 0:
         spec["fmt"] = draw(st.integers(1, 10 ** 6))
+    if with_layout:
+        lay = draw(st.integers(0, 11))
+        if lay in (0, 1):
+            spec["nl"] = "\r\n"
+        if lay in (1, 2, 3):
+            names = ["Song", "SyncTrack", "Events"] + list(tracks)
+            spec["order"] = list(draw(st.permutations(names)))
+        if lay in (3, 4):
+            spec["raw_sections"] = [[draw(st.sampled_from(["Foo", "ExpertDrumsReal", "PART VOCALS", "Song2"])),
+                                     draw(st.lists(st.sampled_from(["  0 = N 0 0", "  x", "", "  0 = B 1", " }"]),
+                                                   max_size=3))]]
     return {"spec": spec, "res": tmap["res"], "tempo": tmap["tempo"], "max_tick": max_tick,
             "tracks_model": tracks_model}
